@@ -1,8 +1,130 @@
 import Lean.Data.Json
-/- stub: the C20 driver is not built yet -/
-namespace Glom.C20.Driver
-open Lean
+import Glom.Model.C20Env
+/-
+  C20 driver: one JSON case in, one JSON verdict out.
 
-def run (_j : Json) : Except String Json := .error "property C20: driver not implemented yet"
+  case: {"threads":[{"events":[["parse",text] | ["handler",type,op,handler|null] | ["user",name] |
+                               ["nested",[events…],Out]…], "alone":Out}…],
+         "schedule":[tid…]            -- one entry per segment (run thread tid up to its next yield point);
+                                      -- absent/null: free-running or nested-only (any order)
+         "impl":{"outs":[Out…], "pcache":[[text,cached,fresh]…], "tcache":[[type,op,cached,fresh]…],
+                 "deadlock":bool}}
+  Out = {"val":str} | {"err":[cls,text]}
+  The events of a call are the shared-state accesses logged while the call ran alone.
+-/
+namespace Glom.C20.Driver
+open Lean Glom.C20
+
+def arr (j : Json) : Except String (List Json) :=
+  match j with
+  | .arr a => .ok a.toList
+  | _ => .error s!"expected array, got {j.compress}"
+
+def outOfJson (j : Json) : Except String Out := do
+  if let .ok v := j.getObjValAs? String "val" then return .val v
+  match ← arr (← j.getObjVal? "err") with
+  | [.str c, .str t] => return .err c t
+  | _ => throw s!"bad Out {j.compress}"
+
+def outToJson : Out → Json
+  | .val v => Json.mkObj [("val", v)]
+  | .err c t => Json.mkObj [("err", Json.arr #[c, t])]
+
+inductive Event where
+  | parse (t : String)
+  | handler (key : TKey) (h : Option String)
+  | user (f : String)
+  | nested (evs : List Event) (out : Out)
+
+partial def eventOfJson (j : Json) : Except String Event := do
+  match ← arr j with
+  | [.str "parse", .str t] => return .parse t
+  | [.str "handler", .str ty, .str op, .str h] => return .handler (ty, op) (some h)
+  | [.str "handler", .str ty, .str op, .null] => return .handler (ty, op) none
+  | [.str "user", .str f] => return .user f
+  | [.str "nested", evs, out] => return .nested (← (← arr evs).mapM eventOfJson) (← outOfJson out)
+  | _ => throw s!"bad event {j.compress}"
+
+instance : Inhabited Ev := ⟨.ret default⟩
+
+/-- the evaluation a log of shared accesses stands for; a failing cache lookup (which the
+    theorems exclude) would surface as the KeyError it is -/
+partial def evOf : List Event → Out → Ev
+  | [], o => .ret o
+  | .parse t :: r, o => .parse t fun res => match res with
+    | .ok _ => evOf r o
+    | .error e => .ret (.err e "cache lookup failed")
+  | .handler key _ :: r, o => .handler key fun res => match res with
+    | .ok _ => evOf r o
+    | .error e => .ret (.err e "type cache lookup failed")
+  | .user f :: r, o => .user f (evOf r o)
+  | .nested evs io :: r, o => .nested (evOf evs io) fun _ => evOf r o
+
+partial def regOf : List Event → List (TKey × String)
+  | [] => []
+  | .handler key (some h) :: r => (key, h) :: regOf r
+  | .nested evs _ :: r => regOf evs ++ regOf r
+  | _ :: r => regOf r
+
+partial def countUser : List Event → Nat
+  | [] => 0
+  | .user _ :: r => 1 + countUser r
+  | .nested evs _ :: r => countUser evs + countUser r
+  | _ :: r => countUser r
+
+def sortStrs (xs : List String) : List String := (xs.toArray.qsort (· < ·)).toList
+
+def dedup (xs : List String) : List String :=
+  xs.foldl (fun acc x => if acc.contains x then acc else acc ++ [x]) []
+
+def run (j : Json) : Except String Json := do
+  let max := genFacts.maxCache
+  let tjs ← arr (← j.getObjVal? "threads")
+  let threads ← tjs.mapM fun tj => do
+    let evs ← (← arr (← tj.getObjVal? "events")).mapM eventOfJson
+    let alone ← outOfJson (← tj.getObjVal? "alone")
+    return (evs, alone)
+  let regTable := (threads.map (fun t => regOf t.1)).flatten
+  let reg : Reg := fun key => dlookup key regTable
+  let progs := threads.map fun t => compile max reg (evOf t.1 t.2)
+  let alone := threads.map (·.2)
+  let schedule : List Nat ← (match j.getObjVal? "schedule" with
+    | .ok (.arr a) => a.toList.mapM (fun x => x.getNat?)
+    | _ => pure ((List.range threads.length).flatMap fun i =>
+        List.replicate ((threads[i]?.map (fun t => countUser t.1)).getD 0 + 1) i))
+  let sys0 : Sys := ⟨{}, progs⟩
+  let sys := sys0.runSegments 100000 schedule
+  let mOuts := sys.threads.map fun p => match p with
+    | .done o => outToJson o
+    | _ => Json.str "unfinished"
+  let impl ← j.getObjVal? "impl"
+  let iOuts ← (← arr (← impl.getObjVal? "outs")).mapM outOfJson
+  let pc ← (← arr (← impl.getObjVal? "pcache")).mapM fun e => do
+    match ← arr e with
+    | [.str t, .str c, .str f] => return (t, c, f)
+    | _ => throw s!"bad pcache entry {e.compress}"
+  let tc ← (← arr (← impl.getObjVal? "tcache")).mapM fun e => do
+    match ← arr e with
+    | [.str ty, .str op, .str c, .str f] => return ((ty, op), c, f)
+    | _ => throw s!"bad tcache entry {e.compress}"
+  let deadlock := (impl.getObjValAs? Bool "deadlock").toOption.getD false
+  let obs : Obs := ⟨iOuts, pc, tc, deadlock⟩
+  let holds := checkC20 alone obs
+  let mPaths := sortStrs (sys.sh.pathCache.map (·.1))
+  let iPaths := sortStrs (pc.map (·.1))
+  let mTypes := sortStrs (dedup (sys.sh.typeCache.map fun e => e.1.1 ++ ":" ++ e.1.2))
+  let iTypes := sortStrs (dedup (tc.map fun e => e.1.1 ++ ":" ++ e.1.2))
+  let finished := sys.threads.all fun p => match p with | .done _ => true | _ => false
+  let mOutsV := sys.threads.filterMap fun p => match p with | .done o => some o | _ => none
+  let agree := finished && mOutsV == iOuts && mPaths == iPaths && mTypes == iTypes && !deadlock
+  let nYield := (threads.map (fun t => countUser t.1)).foldl (· + ·) 0
+  let anyErr := alone.any fun o => match o with | .err _ _ => true | _ => false
+  let shape := if threads.any (fun t => t.1.any fun e => match e with | .nested _ _ => true | _ => false)
+    then "nested" else if (j.getObjVal? "schedule").toOption.isSome then "scheduled" else "free"
+  return Json.mkObj [("agree", agree), ("holds", holds),
+    ("model", Json.mkObj [("outs", Json.arr mOuts.toArray), ("paths", toJson mPaths), ("types", toJson mTypes)]),
+    ("branch", s!"{shape}-{threads.length}threads-{if anyErr then "with-error" else "all-ok"}"),
+    ("yields", nYield),
+    ("why", if holds then "" else if deadlock then "deadlock" else if iOuts != alone then "a call's outcome differs from its outcome alone" else "a cache entry differs from a fresh parse / lookup")]
 
 end Glom.C20.Driver
